@@ -21,6 +21,8 @@ CLAIMS = {
             "every piece of parser state is reset between documents and none is clobbered when a cancelled parse is resumed"),
     "C11": ("pairing rule (flag set before every exhaustion-caused discard), field coverage of cursor re-initialisation, gate on match removal", "§4 C11",
             "a match limit that drops matches is always reported; re-executing a cursor starts from clean per-execution state"),
+    "C13": ("must-pass-through gates on the range setter's validation loop and on the lexer's range-boundary handling; wiring checks of what the tree records", "§4 C13",
+            "a range list is installed only after each element passed both ordering tests; trees record/report exactly the lexer's ranges; tokens never end inside a gap"),
     "C08": ("who-may-write tables + licence-class gates over the Clang-resolved program; call-graph closure of the read-only API; compile-fail witnesses", "§4 C08",
             "no non-atomic write to shared nodes, every in-place mutation licensed by fresh/ref_count==1/dec-to-zero"),
 }
